@@ -55,7 +55,23 @@ pub fn gen_scenario(rng: &mut Rng) -> Scenario {
         0 | 1 => Fault::Eof,
         2 => Fault::ReadErr,
         // complete frames that are not LDAPMessage envelopes
-        3 => Fault::Garbage(rng.pick(&[&[0x02u8, 0x01, 0x01][..], &[0x30, 0x00], &[0x04, 0x00], &[0x30, 0x03, 0x04, 0x01, 0x41], &[0x30, 0x05, 0x04, 0x64, 0x01, 0x02, 0x03], &[0x30, 0x03, 0x02, 0x01, 0x01]]).to_vec()),
+        3 => Fault::Garbage(
+            rng.pick(&[
+                &[0x02u8, 0x01, 0x01][..],
+                &[0x30, 0x00],
+                &[0x04, 0x00],
+                &[0x30, 0x03, 0x04, 0x01, 0x41],
+                &[0x30, 0x05, 0x04, 0x64, 0x01, 0x02, 0x03],
+                &[0x30, 0x03, 0x02, 0x01, 0x01],
+                // envelopes whose messageID is outside 0..maxInt (MessageID ::= INTEGER (0 .. maxInt)): 2^64+1 in nine
+                // octets, 2^32+1, 2^31, -1; each followed by a well-formed DelResponse
+                &[0x30, 0x14, 0x02, 0x09, 0x01, 0, 0, 0, 0, 0, 0, 0, 0x01, 0x6b, 0x07, 0x0a, 0x01, 0x00, 0x04, 0x00, 0x04, 0x00],
+                &[0x30, 0x10, 0x02, 0x05, 0x01, 0, 0, 0, 0x01, 0x6b, 0x07, 0x0a, 0x01, 0x00, 0x04, 0x00, 0x04, 0x00],
+                &[0x30, 0x10, 0x02, 0x05, 0x00, 0x80, 0, 0, 0, 0x6b, 0x07, 0x0a, 0x01, 0x00, 0x04, 0x00, 0x04, 0x00],
+                &[0x30, 0x0c, 0x02, 0x01, 0xff, 0x6b, 0x07, 0x0a, 0x01, 0x00, 0x04, 0x00, 0x04, 0x00],
+            ])
+            .to_vec(),
+        ),
         _ => Fault::Unbind,
     };
     Scenario { singles, streams, order, fault, barrier: rng.chance(3, 4) }
